@@ -2,6 +2,7 @@
 From Coq Require Import ZArith List Bool Lia.
 Import ListNotations.
 From XO Require Import Slots Strides BufOps Types Format Check LayoutProofs RefOps Hybrid HybridProofs.
+From XO Require DictForm.
 Open Scope Z_scope.
 
 Theorem C19_from_dict_to_dict : forall fs, NoDup (map f_name fs) ->
@@ -16,6 +17,23 @@ Theorem C19_json_leaf_roundtrip : forall k bs img m off,
   enc (TScalar k) (VNum bs) = Some img -> sits img m off -> dec (TScalar k) m off = Some (VNum bs, len img).
 Proof. exact dec_enc_scalar. Qed.
 
+(* NESTED dictionary form (Hybrid/DictForm.v): numbers and fixed-size arrays equal to their default are left out,
+   dynamic arrays and nested dressed objects always stored, at every depth; the constructor gives what is missing
+   its default.  from_dict (to_dict x) = x for every class description with distinct python names per level *)
+Theorem C19_nested_from_dict_to_dict : forall fs vs r, NoDup (map fst fs) -> DictForm.all_names_ok fs ->
+  DictForm.to_fields fs vs = Some r -> DictForm.of_fields r fs = Some vs.
+Proof. exact DictForm.from_dict_to_dict_nested. Qed.
+(* the judgement evaluated on every dictionary the real to_dict produces (entries in any order): a dictionary it
+   accepts rebuilds the object, and it accepts what the model's to_dict produces *)
+Theorem C19_accepted_dictionary_rebuilds_the_object : forall c, DictForm.dict_ok c = None ->
+  DictForm.of_fields (DictForm.dd c) (DictForm.dk c) = Some (DictForm.dvs c).
+Proof. exact DictForm.dict_ok_sound. Qed.
+Theorem C19_judgement_accepts_the_models_dictionary : forall k, DictForm.names_ok k -> forall v x,
+  DictForm.to_dv k v = Some x -> DictForm.confb k v x = true.
+Proof. exact DictForm.to_dict_conforms. Qed.
 Print Assumptions C19_from_dict_to_dict.
 Print Assumptions C19_defaults_elided.
 Print Assumptions C19_json_leaf_roundtrip.
+Print Assumptions C19_nested_from_dict_to_dict.
+Print Assumptions C19_accepted_dictionary_rebuilds_the_object.
+Print Assumptions C19_judgement_accepts_the_models_dictionary.
